@@ -73,6 +73,10 @@ def naive_group_by(src_td, gb):
         else:
           ks = []                      # a non-list value contributes no key
       else:
+        if base == "Date" and isinstance(v, (int, float)) and not isinstance(v, bool) and v % 86400 != 0:
+          # a Date cell is a day: two timestamps within one day are one key for the engine; the
+          # statement does not say which cell value names the key
+          raise Unspecified("Date group-by cell that is not a whole day")
         ks = [_hashable(v)]
       keysets.append(ks)
     for key in itertools.product(*keysets):
@@ -135,6 +139,7 @@ def touches_summary_table(e, bundle):
   for a in bundle:
     if len(a) < 2: continue
     if a[1] in s_ids: return True
+    if a[0] == "CreateViewSection" and a[1] in s_refs: return True     # summary of a summary
     rows = a[2] if len(a) > 2 and isinstance(a[2], list) else ([a[2]] if len(a) > 2 else [])
     if a[1] == "_grist_Tables_column" and any(r in s_cols for r in rows): return True
     if a[1] == "_grist_Tables" and any(r in s_refs for r in rows): return True
@@ -248,7 +253,11 @@ class C12Monitor(explore.Monitor):
     if exc is not None or st.get("tainted"):
       return []
     fails = []
+    s_tables = {x[0] for x in summaries(e)}
     for (s_id, t_id, gb) in summaries(e):
+      if t_id in s_tables:
+        ST["unspecified"] += 1        # a summary of a summary table: outside the bound
+        continue
       try:
         f = check_summary(e, s_id, t_id, gb)
         ST["checked"] += 1
@@ -325,7 +334,7 @@ def main():
   tot = {"checked": 0, "unspecified": 0}
   try:
     explore.explore(rep, "checks.C12", "C12Monitor", n_quick=800, n_thorough=10000,
-                    budget_quick_s=60, budget_thorough_s=800)
+                    budget_quick_s=50, budget_thorough_s=800)
     for f in os.listdir(d):
       with open(os.path.join(d, f)) as fh:
         for k, v in json.load(fh).items(): tot[k] += v
